@@ -1108,7 +1108,7 @@ def chain_calls(fn, operand, limit=64):
     return out
 
 
-CLOSURE_RUNNERS = ("std::thread::LocalKey::with", "std::option::Option::map", "std::option::Option::and_then", "std::result::Result::map",
+CLOSURE_RUNNERS = ("std::ops::FnOnce::call_once", "std::ops::FnMut::call_mut", "std::ops::Fn::call", "std::thread::LocalKey::with", "std::option::Option::map", "std::option::Option::and_then", "std::result::Result::map",
                    "std::result::Result::and_then", "std::option::Option::unwrap_or_else", "std::option::Option::map_or_else")
 
 
@@ -1153,7 +1153,7 @@ def chain_calls_ip(F, fn, operand=None, local=None, depth=0, _seen=None):
                         g = next((x for x in F.fns.values() if strip_generics(x.path) == name), None)
                     if g is not None:
                         targets.append(g)
-                    if name in CLOSURE_RUNNERS:
+                    if name in CLOSURE_RUNNERS or strip_generics(node.get("callee") or "") in CLOSURE_RUNNERS:
                         t2 = Tracer(fn)
                         for a in node["args"]:
                             for r in t2.roots_of_operand(a):
